@@ -339,12 +339,23 @@ def map_excluded(pk, pv, row, has_vt):
     return (pk == "exclude" and kbad) or (pv == "exclude" and (not kbad or pk == "preserve") and vbad)
 
 
-def _schema_class(case, strict=False):
+def _schema_class(case, strict=False, drop=()):
     from utype import Field, Schema
-    key = ("strict:" if strict else "schema:") + _jkey([case["fields"], case["opts"]])
+    key = ("strict:" if strict else "schema:") + _jkey([case["fields"], case.get("props", []), case["opts"], sorted(drop)])
     if key in _CACHE:
         return _CACHE[key]
     attrs = {"__annotations__": {}}
+    for q in case.get("props", []):
+        if q["name"] in drop:
+            continue
+
+        def fget(self, _raw=dec(q["raw"])):
+            return _raw
+        if q["type"] is not None:
+            fget.__annotations__ = {"return": ann(q["type"])}
+        oe = "throw" if strict else q.get("on_error")
+        Field(required=False, **({"on_error": oe} if oe else {}))(fget)
+        attrs[q["name"]] = property(fget)
     for f in case["fields"]:
         attrs["__annotations__"][f["name"]] = ann(f["type"])
         kw = {}
@@ -385,7 +396,9 @@ def impl_schema(case):
     add = opts.get("addition")
     typed = isinstance(add, (dict, str))
     add_table = [[enc(v), conv(add, v, opts)] for k, v in data.items() if k not in names] if typed else []
-    res["probe"] = {"tables": tables, "add_table": add_table}
+    prop_tables = {q["name"]: ([[q["raw"], conv(q["type"], dec(q["raw"]), opts)]] if q["type"] is not None else None)
+                   for q in case.get("props", [])}
+    res["probe"] = {"tables": tables, "add_table": add_table, "prop_tables": prop_tables}
     # metamorphic run: all-throw declaration on the data without the excluded offenders, when no offender is preserved
     removed, preserved = set(), False
     for k, v in data.items():
@@ -402,9 +415,18 @@ def impl_schema(case):
                 removed.add(k)
             if bad and inv == "preserve":
                 preserved = True
-    readers = [f["type"] for f in case["fields"]] + ([add] if typed else [])
+    dropped = set()
+    for q in case.get("props", []):
+        t = prop_tables[q["name"]]
+        if t is not None and t[0][1] is None:
+            pol = q.get("on_error") or inv
+            if pol == "exclude":
+                dropped.add(q["name"])
+            if pol == "preserve":
+                preserved = True
+    readers = [f["type"] for f in case["fields"]] + ([add] if typed else []) + [q["type"] for q in case.get("props", [])]
     if not preserved and not any(reads_policy(t, "invalid_values") for t in readers):
-        S2 = _schema_class(case, strict=True)
+        S2 = _schema_class(case, strict=True, drop=dropped)
         kept = {k: v for k, v in data.items() if k not in removed}
         res["strict"] = outcome(lambda: S2(**kept))
     return res
@@ -602,7 +624,7 @@ def gen_field(rng, name, shape=None, on_error="?", tname=None):
     return f
 
 
-def gen_schema(rng, fields=None, presence=None, extras=None, opts=None):
+def gen_schema(rng, fields=None, presence=None, extras=None, opts=None, props=None, prop_oe="?"):
     if fields is None:
         fields = [gen_field(rng, nm) for nm in ["a", "b", "c", "d"][: rng.choice([1, 2, 2, 3, 4])]]
     if opts is None:
@@ -625,8 +647,17 @@ def gen_schema(rng, fields=None, presence=None, extras=None, opts=None):
     for i, ex in enumerate(extras):
         data.append([f"x{i}", enc(rng.choice(GOOD[aname] if ex == "good" else BAD[aname]))])
     rng.shuffle(data)
-    return {"op": "schema", "fields": fields, "opts": opts, "data": data,
-            "pattern": ",".join(presence) + "|" + ",".join(extras)}
+    if props is None:
+        props = [rng.choice(["good", "bad", "bad"]) for _ in range(rng.choice([0, 0, 0, 1, 2]))]
+    plist = []
+    for i, pr in enumerate(props):
+        tn = rng.choice(["int", "posint", "str3", "int", None])
+        pool = elem_pool(tn or "int")
+        plist.append({"name": f"p{i}", "type": pool[0] if tn else None,
+                      "on_error": rng.choice([None, None, "throw", "exclude", "preserve"]) if prop_oe == "?" else prop_oe,
+                      "raw": enc(rng.choice(pool[1] if pr == "good" else pool[2]))})
+    return {"op": "schema", "fields": fields, "props": plist, "opts": opts, "data": data,
+            "pattern": ",".join(presence) + "|" + ",".join(extras) + "|" + ",".join(props)}
 
 
 def gen_func(rng, opts=None, pattern=None, kwpat=None):
@@ -713,6 +744,15 @@ def exhaustive_cases(rng, tier):
                                 g = gen_field(rng, "b", shape="default", on_error=None, tname="int")
                                 out.append(gen_schema(rng, fields=[f, g], presence=[pres, rng.choice(["absent", "good"])],
                                                       extras=ex, opts=o))
+    # one @property x on_error x invalid_values x good/bad result
+    for oe in [None, "throw", "exclude", "preserve"]:
+        for inv in POLICIES:
+            for pr in ["good", "bad"]:
+                for _ in range(2 if tier == "quick" else 6):
+                    g = gen_field(rng, "b", shape="default", on_error=None, tname="int")
+                    out.append(gen_schema(rng, fields=[g], presence=[rng.choice(["absent", "good"])], extras=[],
+                                          opts={"invalid_values": inv, "data_first_search": rng.choice([True, False])},
+                                          props=[pr], prop_oe=oe))
     # *args / **kwargs
     for n in range(0, (3 if tier == "quick" else 4) + 1):
         for pat in placements(n):
@@ -750,7 +790,9 @@ def model_line(case, io):
                 "fields": [{"name": f["name"], "required": f["required"], "has_default": f["has_default"],
                             "default": f["default"], "on_error": f["on_error"], "table": pr["tables"][f["name"]]}
                            for f in case["fields"]],
-                "addition": addition, "add_table": pr["add_table"], "data": case["data"]}
+                "addition": addition, "add_table": pr["add_table"], "data": case["data"],
+                "props": [{"name": q["name"], "on_error": q.get("on_error"), "table": pr["prop_tables"][q["name"]],
+                           "raw": q["raw"]} for q in case.get("props", [])]}
     if case["op"] == "func":
         return {"op": "func", "pol_items": opts.get("invalid_items", "throw"), "inv": opts.get("invalid_values", "throw"),
                 "pos_table": pr["pos_table"], "args": case["args"],
@@ -785,7 +827,8 @@ def offenders(case, io):
         return sum(1 for t in pr.get("tables", []) for r in t if r[1] is None) + \
             sum(1 for r in pr.get("extra_table", []) if r[1] is None)
     if case["op"] == "schema":
-        return sum(1 for t in pr["tables"].values() for r in t if r[1] is None) + sum(1 for r in pr["add_table"] if r[1] is None)
+        return sum(1 for t in pr["tables"].values() for r in t if r[1] is None) + sum(1 for r in pr["add_table"] if r[1] is None) \
+            + sum(1 for t in pr.get("prop_tables", {}).values() if t is not None and t[0][1] is None)
     if case["op"] == "func":
         return sum(1 for r in (pr["pos_table"] or []) if r[1] is None) + sum(1 for r in pr["kw_table"] if r[1] is None)
     return 0
@@ -1029,6 +1072,21 @@ class C11(Check):
                     log.append([k, v])
                 else:
                     fail, why_fail = True, f"offending extra key {k!r}"
+        for q in case.get("props", []):
+            t = pr["prop_tables"][q["name"]]
+            if t is None:
+                log.append([q["name"], q["raw"]])          # untyped getter: result passed through
+                continue
+            raw, c = t[0]
+            pol = q.get("on_error") or inv
+            if c is not None:
+                log.append([q["name"], c])
+            elif pol == "exclude":
+                continue                                   # the offending computed value is left out
+            elif pol == "preserve":
+                log.append([q["name"], raw])
+            else:
+                fail, why_fail = True, f"offending @property result {q['name']!r}"
         want = None if fail else wrap_map(log, cls="S")
         why = self._expect(out, want, f"data class under invalid_values={inv}" + (f" [{why_fail}]" if fail else ""))
         strict = io.get("strict")
